@@ -8,8 +8,9 @@ Theorems about `Snowflake.Model.ClientAddr` (`clientAddr`, the ClientID → addr
 `Snowflake.Base.IP` (Go's `net.ParseIP` / `net.IP.String`).  Tied to the source by
 `Tie/ServerLib.lean` (statement listings, capacity constant) and by `harness/c18_serverlib_test.go`.
 
-Not covered here: the `attribution` clause of DESIGN §5.18 (which `Set`/`Get` the HTTP handler and the
-KCP accept loop perform, and in which order) belongs to the server LTS of C05.
+The `attribution` clause of DESIGN §5.18 (which `Set`/`Get` the HTTP handler and the KCP accept path
+perform, and in which order) is `Props/C18Attr.lean` over `Model/Attribution.lean`; it builds on the ring
+theorems below (`ring_get_spec`, `ring_remembers`, `ring_forgets`, `ring_get_own`).
 -/
 namespace Snowflake.ClientAddr.C18
 open Snowflake.GoStr Snowflake.IP
